@@ -88,6 +88,24 @@ Theorem C03_filter_exact_refuted_prefix :
 Proof. exact find_preds_prefix_refuted. Qed.
 Print Assumptions C03_filter_exact_refuted_prefix.
 
+(* [served_ok] cannot be dropped: a served descriptor that carries fields which are not the
+   manifest's (the annotations / artifactType of the index entry that points to it -- what a
+   reloaded OCI layout served before fix 53cd0be, audit F1) is judged on those fields; the
+   annotation filter follows a manifest without annotations, the type filter drops a manifest
+   whose effective type matches. *)
+Theorem C03_filter_exact_refuted_embedded :
+  let keyf := [FAnn (b "vnd.docker.reference.type") None] in
+  let typf := [FArt (Some (str_eqb (b "application/vnd.oci.image.config.v1+json")))] in
+  ~ Forall (served_ok embedded_source) (s_preds embedded_source 0) /\
+  map d_id (find_preds embedded_source keyf 0) = [1] /\
+  List.filter (fun id => forallb (fun f => keep_spec embedded_source f id) keyf)
+              (map d_id (s_preds embedded_source 0)) = [] /\
+  map d_id (find_preds embedded_source typf 0) = [] /\
+  List.filter (fun id => forallb (fun f => keep_spec embedded_source f id) typf)
+              (map d_id (s_preds embedded_source 0)) = [1].
+Proof. exact filter_exact_refuted_embedded. Qed.
+Print Assumptions C03_filter_exact_refuted_embedded.
+
 (* End to end, general form (any link relation, any "held" predicate).  [succ] is the link relation, [down succ a x]: x is reachable from a
    through links, [held x]: the destination holds x byte-identical after return.
    The copy phase is C01's subject: its closure fact is the hypothesis
